@@ -12,7 +12,9 @@ def run_all(chk, fsets, tier):
             rt.check_default_params(chk, F, "K3.defaults")
         chk.rule("K1.domain", floor=100 if i == 0 else 0,
                  doc="E3: under the documented domain (n <= 2^64-2; zeta 1<=k<=63; pi/Rice/exp-Golomb k<=63; Golomb b>=1; minimal binary max>=1, n<max) every overflow/shift/division assert, ilog2 argument, read_bits/write_bits width and reachable panic of each code's write/len function is discharged (reader side: up to stream-domain assumptions)")
-        rn.run_specs(chk, F, [s for s in rn.code_specs() if not s.key.startswith("vbyte.io_")], "K1.domain", fs)
+        import rules_ivl
+        rn.run_specs(chk, F, [s for s in rn.code_specs() if not s.key.startswith("vbyte.io_") and s.key not in rules_ivl.E7_COVERED], "K1.domain", fs)
+        rules_ivl.run_domain_e7(chk, F, fs, tier, "K1.domain", [k for k in rules_ivl.E7_COVERED if not k.startswith("vbyte.io_")])
     import rules_ivl
     for fs in fsets:
         rules_ivl.run_c03_roundtrip(chk, facts.load(fs), fs, tier)
